@@ -584,4 +584,233 @@ theorem clipFactor_range (n : α) : 1 ≤ clipFactor n ∧ clipFactor n ≤ 2 :=
     · exact ⟨not_lt.mp ‹_›, not_lt.mp ‹_›⟩
 
 
+/-! ### post-processing addresses phases by their stable-phase name -/
+
+section byname
+variable {ι : Type} [DecidableEq ι]
+
+/-- `exclude`: with every name a database phase there is no error, whatever phases are stable
+(single-phase regions included); names and mobilities are untouched -/
+theorem exclude_ok (db names : List ι) (pt : Point ι α) (h : ∀ p ∈ names, p ∈ db) :
+    postExclude db names pt = .ok { pt with
+      fr := List.zipWith (fun name f => if name ∈ names then 0 else f) pt.stable pt.fr } := by
+  unfold postExclude
+  have : names.all (fun p => decide (p ∈ db)) = true := by simpa using h
+  simp [this]
+
+/-- **exclude acts by name**: row `k` of the fractions becomes 0 exactly when the name of the
+STABLE phase in row `k` is one of the excluded names; otherwise it keeps its value -/
+theorem exclude_by_name (db names : List ι) (pt pt' : Point ι α)
+    (h : postExclude db names pt = .ok pt') (k : Nat) (hk : k < pt.stable.length)
+    (hk' : k < pt.fr.length) :
+    pt'.stable = pt.stable ∧ pt'.mob = pt.mob ∧
+    pt'.fr[k]? = some (if pt.stable[k] ∈ names then 0 else pt.fr[k]) := by
+  unfold postExclude at h
+  split at h
+  · injection h with h; subst h
+    refine ⟨rfl, rfl, ?_⟩
+    simp [List.getElem?_zipWith, List.getElem?_eq_getElem hk, List.getElem?_eq_getElem hk']
+  · cases h
+
+/-- a name that is not a database phase is reported (ValueError), never silently matched -/
+theorem exclude_unknown (db names : List ι) (pt : Point ι α) (p : ι) (hp : p ∈ names) (hdb : p ∉ db) :
+    postExclude db names pt = .error "ValueError" := by
+  unfold postExclude
+  have : ¬ (names.all (fun p => decide (p ∈ db)) = true) := by
+    simp only [List.all_eq_true, decide_eq_true_eq, not_forall]
+    exact ⟨p, hp, hdb⟩
+  simp [this]
+
+theorem fillRow_get (src row : List α) (i : Nat) (hi : i < row.length) (hs : i < src.length) :
+    (fillRow src row)[i]? = some (if isDefined row[i] then row[i] else src[i]) := by
+  unfold fillRow
+  simp [List.getElem?_zipWith, List.getElem?_eq_getElem hi, List.getElem?_eq_getElem hs]
+
+/-- a defined entry is never changed by `predefined` / `majority` -/
+theorem fillRow_defined (src row : List α) (i : Nat) (hi : i < row.length) (hs : i < src.length)
+    (hd : isDefined row[i] = true) : (fillRow src row)[i]? = some row[i] := by
+  rw [fillRow_get src row i hi hs]; simp [hd]
+
+/-- **predefined acts by name**: when the named phase is stable at the point, the source row is a
+row whose STABLE-phase name is that name, and every row is filled from it -/
+theorem predefined_by_name (db : List ι) (alpha : ι) (pt : Point ι α)
+    (hdb : alpha ∈ db) (hst : alpha ∈ pt.stable) :
+    pt.stable[pt.stable.idxOf alpha]? = some alpha ∧
+    postPredefined db alpha pt = .ok { pt with
+      mob := pt.mob.map (fillRow (pt.mob.getD (pt.stable.idxOf alpha) [])) } := by
+  refine ⟨?_, ?_⟩
+  · have hlt : pt.stable.idxOf alpha < pt.stable.length := List.idxOf_lt_length_iff.mpr hst
+    rw [List.getElem?_eq_getElem hlt]; simp
+  · unfold postPredefined; simp [hdb, hst]
+
+/-- **single-phase and other regions where the named phase is absent**: no error, nothing changes -/
+theorem predefined_not_stable (db : List ι) (alpha : ι) (pt : Point ι α)
+    (hdb : alpha ∈ db) (hst : alpha ∉ pt.stable) :
+    postPredefined db alpha pt = .ok pt := by
+  unfold postPredefined; simp [hdb, hst]
+
+/-- whatever the set of stable phases (one phase or many), post-processing with database-phase
+names succeeds -/
+theorem postProcess_ok (db : List ι) (post : Post ι) (pt : Point ι α)
+    (h : match post with
+      | .predefined a => a ∈ db
+      | .exclude names => ∀ p ∈ names, p ∈ db
+      | _ => True) :
+    ∃ pt', postProcess db post pt = .ok pt' ∧ pt'.stable = pt.stable := by
+  cases post with
+  | none => exact ⟨pt, rfl, rfl⟩
+  | majority => exact ⟨_, rfl, rfl⟩
+  | predefined a =>
+    by_cases hst : a ∈ pt.stable
+    · exact ⟨_, (predefined_by_name db a pt h hst).2, rfl⟩
+    · exact ⟨_, predefined_not_stable db a pt h hst, rfl⟩
+  | exclude names => exact ⟨_, exclude_ok db names pt h, rfl⟩
+
+end byname
+
+/-! ### evaluating twice = evaluating once (the cached record is not modified) -/
+
+section cache
+variable {ι : Type} [DecidableEq ι]
+
+theorem evalCached_record (pw : α → α → α) (tiny big : α) (db : List ι) (cfg : Cfg ι α)
+    (stored : Point ι α) : (evalCached pw tiny big db cfg stored).2 = stored := rfl
+
+/-- **histories**: under any sequence of configurations evaluated at the same point with the cache
+enabled, every answer is the answer on the original record, and the record is unchanged at the end -/
+theorem runHistory_evalCached (pw : α → α → α) (tiny big : α) (db : List ι) (cfgs : List (Cfg ι α))
+    (stored : Point ι α) :
+    runHistory (evalCached pw tiny big db) cfgs stored
+      = (cfgs.map (fun c => evalPoint pw tiny big db c stored), stored) := by
+  unfold runHistory
+  suffices h : ∀ acc : List (Except String (List α)),
+      cfgs.foldl (fun (st : List (Except String (List α)) × Point ι α) cfg =>
+        let r := evalCached pw tiny big db cfg st.2
+        (st.1 ++ [r.1], r.2)) (acc, stored)
+      = (acc ++ cfgs.map (fun c => evalPoint pw tiny big db c stored), stored) by
+    simpa using h []
+  induction cfgs with
+  | nil => intro acc; simp
+  | cons c cs ih =>
+    intro acc
+    simp only [List.foldl_cons, List.map_cons]
+    have : evalCached pw tiny big db c stored = (evalPoint pw tiny big db c stored, stored) := rfl
+    rw [this]; simp only
+    rw [ih]; simp
+
+/-- **twice = once** -/
+theorem twice_eq_once (pw : α → α → α) (tiny big : α) (db : List ι) (cfg : Cfg ι α)
+    (stored : Point ι α) :
+    runHistory (evalCached pw tiny big db) [cfg, cfg] stored
+      = ([evalPoint pw tiny big db cfg stored, evalPoint pw tiny big db cfg stored], stored) :=
+  runHistory_evalCached pw tiny big db [cfg, cfg] stored
+
+/-- the answer to a configuration does not depend on what was evaluated before it -/
+theorem answer_independent_of_history (pw : α → α → α) (tiny big : α) (db : List ι)
+    (before : List (Cfg ι α)) (cfg : Cfg ι α) (stored : Point ι α) :
+    (runHistory (evalCached pw tiny big db) (before ++ [cfg]) stored).1.getLast?
+      = some (evalPoint pw tiny big db cfg stored) := by
+  rw [runHistory_evalCached]; simp
+
+end cache
+
+/-! ### the code AS FOUND violates both clauses (witnesses; ℤ entries so that `decide` computes)
+
+Database phases [A,B,C] = [0,1,2]; at the point only B and C are stable (rows B, C);
+mobilities B = 1, C = 5; fractions B = 3, C = 7 (tenths). -/
+
+def wDb : List Nat := [0, 1, 2]
+def wPt : Point Nat Int := { stable := [1, 2], mob := [[1], [5]], fr := [3, 7] }
+
+/-- as found, `exclude B` zeroes the fraction of C (the phase that shares B's database position) -/
+theorem old_exclude_hits_other_phase :
+    (postExcludeOld wDb [1] wPt).toOption.map (·.fr) = some [3, 0] := by decide
+
+/-- as repaired, `exclude B` zeroes the fraction of B -/
+theorem new_exclude_hits_named_phase :
+    (postExclude wDb [1] wPt).toOption.map (·.fr) = some [0, 7] := by decide
+
+/-- as found, `predefined B` fills undefined entries from C's row -/
+theorem old_predefined_copies_other_phase :
+    (postPredefinedOld wDb 1 { wPt with mob := [[1], [5], [-1]], stable := [1, 2, 0], fr := [3, 6, 1] }
+      ).toOption.map (·.mob) = some [[1], [5], [5]] := by decide
+
+theorem new_predefined_copies_named_phase :
+    (postPredefined wDb 1 { wPt with mob := [[1], [5], [-1]], stable := [1, 2, 0], fr := [3, 6, 1] }
+      ).toOption.map (·.mob) = some [[1], [5], [1]] := by decide
+
+/-- as found, a single-phase region (only C stable) raises IndexError for `exclude C` and
+`predefined C`; as repaired both succeed -/
+theorem old_single_phase_region_fails :
+    (postExcludeOld wDb [2] ({ stable := [2], mob := [[5]], fr := [10] } : Point Nat Int)).toOption.isNone = true ∧
+    (postPredefinedOld wDb 2 ({ stable := [2], mob := [[5]], fr := [10] } : Point Nat Int)).toOption.isNone = true ∧
+    (postExclude wDb [2] ({ stable := [2], mob := [[5]], fr := [10] } : Point Nat Int)).toOption.isSome = true ∧
+    (postPredefined wDb 2 ({ stable := [2], mob := [[5]], fr := [10] } : Point Nat Int)).toOption.isSome = true := by
+  decide
+
+def wCfg (post : Post Nat) : Cfg Nat Int := { rule := .wienerUpper, n := 1, post := post }
+
+/-- as found, evaluating with `exclude B` changes what a later evaluation without post-processing
+returns at the same point (38 on a fresh record, 3 afterwards) -/
+theorem old_history_changes_answer :
+    (runHistory (evalCachedOld (fun x _ => x) 0 0 wDb) [wCfg .none] wPt).1 = [.ok [38]] ∧
+    (runHistory (evalCachedOld (fun x _ => x) 0 0 wDb) [wCfg (.exclude [1]), wCfg .none] wPt).1
+      = [.ok [3], .ok [3]] := by
+  decide
+
+theorem new_history_keeps_answer :
+    (runHistory (evalCached (fun x _ => x) 0 0 wDb) [wCfg (.exclude [1]), wCfg .none] wPt).1
+      = [.ok [35], .ok [38]] := by
+  decide
+
+/-! ### real powers: the labyrinth rule with `np.power` -/
+
+noncomputable section real
+open Real
+
+/-- **factor 1**: the labyrinth rule is the upper Wiener rule -/
+theorem labyrinth_one_real (ps : List (ℝ × ℝ)) :
+    labyrinth (fun x n => x ^ n) 1 ps = wienerUpper ps :=
+  labyrinth_one _ (fun x => Real.rpow_one x) ps
+
+theorem rpow_le_self (n : ℝ) (hn : 1 ≤ n) (x : ℝ) (hx0 : 0 ≤ x) (hx1 : x ≤ 1) : x ^ n ≤ x := by
+  rcases hx0.lt_or_eq with h | h
+  · have := Real.rpow_le_rpow_of_exponent_ge h hx1 hn
+    simpa using this
+  · rw [← h, Real.zero_rpow (by linarith)]
+
+/-- **factor ≥ 1**: the labyrinth rule never exceeds the upper Wiener rule -/
+theorem labyrinth_le_wienerUpper_real (n : ℝ) (hn : 1 ≤ n) (ps : List (ℝ × ℝ))
+    (hM : ∀ p ∈ ps, 0 ≤ p.2) (hf : ∀ p ∈ ps, 0 ≤ p.1) (hs : S Prod.fst ps = 1) :
+    labyrinth (fun x n => x ^ n) n ps ≤ wienerUpper ps :=
+  labyrinth_le_wienerUpper _ n (rpow_le_self n hn) ps hM hf hs
+
+/-- after `setLabyrinthFactor` (which clips to [1,2]) this holds for every requested factor -/
+theorem labyrinth_clipped_le_wienerUpper_real (n : ℝ) (ps : List (ℝ × ℝ))
+    (hM : ∀ p ∈ ps, 0 ≤ p.2) (hf : ∀ p ∈ ps, 0 ≤ p.1) (hs : S Prod.fst ps = 1) :
+    labyrinth (fun x n => x ^ n) (clipFactor n) ps ≤ wienerUpper ps :=
+  labyrinth_le_wienerUpper_real _ (clipFactor_range n).1 ps hM hf hs
+
+/-- single phase, labyrinth rule, any factor -/
+theorem single_phase_real (tiny big n M : ℝ) (hM : 0 < M) (r : Rule) :
+    applyRule (fun x n => x ^ n) tiny big n r [(1, M)] = M :=
+  single_phase _ tiny big n M hM (Real.one_rpow n) r
+
+end real
+
+/-! ### non-vacuity: a concrete two-phase column meets the hypotheses, and the chain is strict there -/
+
+def exPs : List (ℚ × ℚ) := [(1/4, 1), (3/4, 2)]
+
+theorem exPs_valid : Valid exPs := by
+  refine ⟨?_, ?_, ?_⟩
+  · intro p hp; simp [exPs] at hp; rcases hp with rfl | rfl <;> norm_num
+  · intro p hp; simp [exPs] at hp; rcases hp with rfl | rfl <;> norm_num
+  · simp [exPs]; norm_num
+
+example : wienerLower exPs = 8/5 ∧ hsLower exPs = 22/13 ∧ hsUpper exPs = 12/7 ∧ wienerUpper exPs = 7/4 := by
+  refine ⟨?_, ?_, ?_, ?_⟩ <;>
+    norm_num [exPs, wienerLower, wienerUpper, hsLower, hsUpper, hsGeneral, hsTerm, sumMap, minL, maxL]
+
+
 end KawinV.Props.C17
